@@ -228,3 +228,63 @@ Proof.
   eexists. split; [vm_compute; reflexivity|]. split; [vm_compute; reflexivity|]. split; [vm_compute; reflexivity|].
   split; [vm_compute; reflexivity|]. split; vm_compute; reflexivity.
 Qed.
+
+(** ------------------------------------------------------------------------------------------------------------
+    TIE BY TRANSLATION.  [GenMM.*] (coq/Gen/MMPrintSlice.v) is regenerated on every run from the CURRENT
+    ast.py (Encoder) and metamath_extract_slice.py (construct_axiom, deconstruct_provable,
+    supporting_database_for_provable, slice_database) by translators/mm_print_slice.py; MM17/GenMMPrintSliceAgree.v
+    proves the generated functions equal to the model's.  The properties, stated of the generated functions:
+    [norm] (MM17/GenLib.v) is the lexer's view of the printer's [write] calls (blanks/newlines separate, adjacent
+    writes glue); [labels_ok]: no empty label (true of every parsed database: TOKEN is a non-empty regex). *)
+From Pi2 Require Import MM17.GenLib Gen.MMPrintSlice MM17.GenMMPrintSliceAgree.
+
+Theorem C17_source_printer_is_model : forall db, labels_ok db -> norm (GenMM.encode_database false db) = print_db db.
+Proof. exact gen_encode_database_agrees. Qed.
+Print Assumptions C17_source_printer_is_model.
+
+Theorem C17_source_slicer_is_model : forall db sd incl excl,
+  GenMM.slice_database db sd incl excl = slice_database sguards_fixed db sd incl excl.
+Proof. exact gen_slice_database_agrees. Qed.
+Print Assumptions C17_source_slicer_is_model.
+
+Theorem C17_source_parse_print_parse : forall toks db,
+  parse_db toks = Some db -> labels_ok db -> parse_db (norm (GenMM.encode_database false db)) = Some db.
+Proof. intros toks db H L. rewrite (gen_encode_database_agrees db L). exact (print_parse_idem toks db H). Qed.
+Print Assumptions C17_source_parse_print_parse.
+
+Theorem C17_source_parse_print : forall db,
+  wf_db db = true -> labels_ok db -> parse_db (norm (GenMM.encode_database false db)) = Some db.
+Proof. intros db W L. rewrite (gen_encode_database_agrees db L). exact (parse_print_db db W). Qed.
+Print Assumptions C17_source_parse_print.
+
+Theorem C17_source_slice_self_contained : forall db sd incl excl l s,
+  wf_db db = true -> consistent db = true -> unique_labels db -> labels_ok db ->
+  In (l, s) (fst (GenMM.slice_database db sd incl excl)) ->
+  (declares_all s = true /\ labels_resolve s) /\ floating_order_preserved db s /\
+  parse_db (norm (GenMM.encode_database false s)) = Some s.
+Proof.
+  intros db sd incl excl l s W Cn U L Hin. rewrite gen_slice_database_agrees in Hin.
+  destruct (slice_self_contained_all db sd incl excl l s W Cn U Hin) as (A & B & C).
+  split; [exact A|]. split; [exact B|].
+  rewrite (gen_encode_database_agrees s (slice_labels_ok db sd incl excl l s U L Hin)). exact C.
+Qed.
+Print Assumptions C17_source_slice_self_contained.
+
+Theorem C17_source_slice_proof_verifies : forall db sd lemma s,
+  wf_db db = true -> sym_disjoint db = true -> all_labels_unique db -> compressed_lemma db lemma = true ->
+  assoc_get lemma (fst (GenMM.slice_database db sd [lemma] [])) = Some s ->
+  mm_verify db lemma = true -> mm_verify s lemma = true.
+Proof.
+  intros db sd lemma s W S U C H. rewrite gen_slice_database_agrees in H. exact (slice_proof_verifies db sd lemma s W S U C H).
+Qed.
+Print Assumptions C17_source_slice_proof_verifies.
+
+Example C17_source_nonvacuous :
+  labels_ok ex_slice_db /\ norm (GenMM.encode_database false ex_slice_db) = print_db ex_slice_db /\
+  exists s, assoc_get "th1" (fst (GenMM.slice_database ex_slice_db [] ["th1"] [])) = Some s.
+Proof.
+  split; [|split].
+  - intros l Hl. vm_compute in Hl. intuition (subst; discriminate).
+  - vm_compute. reflexivity.
+  - eexists. vm_compute. reflexivity.
+Qed.
